@@ -82,5 +82,19 @@ _e("C19", "runtime post-condition monitor + offline checker over the recorded ra
    "observed adjacency against scipy t statistics and BFS components, component labels 1..C, p-values against the "
    "returned null, and every null value recomputed by replaying the k relabellings actually drawn; metamorphic swaps "
    "of groups/tail and subject order; unsuitable thresholds must raise")
+_e("C04", "metamorphic monitor (node renumbering) with declared output kinds, exhaustive over all n! permutations of small graphs",
+   "~75 measure configurations are evaluated on A and A[p,p]; node vectors, pair matrices, scalars / distributions, "
+   "partitions, multisets and walk tensors are compared after the corresponding renumbering; every permutation of every "
+   "small graph, random permutations of structured (highly symmetric) and random graphs")
+_e("C05", "universal runtime contract on numpy's / python's global generator state + metamorphic reproducibility driver with a Spy RNG",
+   "every seeded depth-0 call in every workload is bracketed by a bit-exact comparison of the global generator states; "
+   "per seedable function: same seed twice, integer seed vs RandomState(seed) vs Spy(seed), unseeded result as a function "
+   "of the global state under interposed histories; thorough: identical digests across fresh processes with different "
+   "PYTHONHASHSEED and the multiprocessing NBS variant")
+_e("C13", "universal runtime contract: deep pre-call snapshot of every ndarray argument compared after return or raise",
+   "dedicated call recipes for every array-taking public function over argument classes able to show an in-place edit "
+   "(nonzero diagonal, signed, float32 / int64 / bool, Fortran order, non-contiguous views, canonical and arbitrary "
+   "partition labels, option combinations, inf-containing distance matrices) plus the other properties' workloads "
+   "replayed under the same monitor")
 
 NOT_APPLICABLE = []
